@@ -130,6 +130,14 @@ def r2(ctx):
                 ok = bool(te) and b.dominated_by_any(bb, edges=te)
                 ctx.inst(R, f"step:is_finished-write#{n}", ok, s["s"], "completion is folded only for clients" if ok else
                          "the completion flag is updated for a non-client: host software that never finishes prevents success (or finishing hosts end the run)")
+            # the neutral element: before any client has been looked at the flag is `true` (a step that ticks no client - every client
+            # already finished, only hosts left - reports completion, as the run that just succeeded did)
+            alld = b.defs().get(fin, [])
+            init = [d for d in alld if not (te and b.dominated_by_any(d[0], edges=te))]
+            okinit = len(init) == 1 and init[0][1] != "term" and init[0][2]["r"]["k"] == "use" and (op_const(init[0][2]["r"].get("o")) or {}).get("v") == 1
+            ctx.inst(R, "step:is_finished-starts-true", okinit, (init[0][2].get("s") if init else None) or b.span, "the completion flag starts as `true` and is only lowered by clients" if okinit else
+                     "the completion flag of Sim::step does not start as the constant `true`: a step in which no client runs (all clients are done, hosts remain) reports "
+                     "`not finished` - step() contradicts the run() that just returned Ok, and a later run() ends with the duration error although every client finished Ok in time")
             # folded value derives from the tick result
             ok2 = any("call:turmoil::world::World::enter" in Slicer(ctx.w).atoms(b, s["r"].get("o", {})) or
                       any(a.startswith("call:turmoil::world::World::enter") for a in Slicer(ctx.w).atoms(b, {"c": {"l": fin}})) for bb, s in wr)
@@ -315,8 +323,13 @@ def r5(ctx):
         ctx.inst(R, "run:loop-left-only-on-step-verdict", not bad, bad[0] if bad else b.span, "the run loop ends only on step's Err or Ok(true)" if not bad else
                  "Sim::run's loop has an exit that does not depend on what Sim::step returned (a bound on elapsed / steps): entered with the clock already past the duration, "
                  "run returns the timeout error without stepping although all clients finished Ok - run and step disagree on the same Sim")
+    # whether software is still running is step's business: the only thing run decides itself is "no client was ever registered"
+    asks = [(fb, t) for fb in ctx.w.family(b.id) for bb, t in fb.calls(re.compile(r"^turmoil::rt::Rt::(is_software_running|is_software_finished)$|JoinHandle::is_finished$"))]
+    ctx.inst(R, "run:shortcut-only-without-clients", not asks, asks[0][1]["s"] if asks else b.span, "run's own shortcut looks at the kind of the registered hosts only" if not asks else
+             f"Sim::run consults `{asks[0][1]['f']}` itself: with every client finished it returns Ok without stepping, so a host error that falls into this run is never reported "
+             "and run disagrees with step (which returns the error for the same state)")
     ctx.inst(R, "run:loop-found", n == 1, b.span, "one step loop in Sim::run" if n == 1 else f"{n} loops calling Sim::step found in Sim::run: re-derive")
-    ctx.floor(R, 2)
+    ctx.floor(R, 3)
 
 
 def run(ctx):
